@@ -12,6 +12,10 @@ Proof. destruct 1; reflexivity. Qed.
 
 Ltac in_cases H := repeat (destruct H as [<-|H]); [..|destruct H].
 
+Section Flags.
+(** every lemma below holds for every value of the repair switches *)
+Variables (cf df : bool) (F : afix).
+
 (* ------------------------------------------------------------------------------------------------ pass 1 *)
 
 Lemma sup_el : forall n attrs kids,
@@ -41,26 +45,26 @@ Qed.
 (* ------------------------------------------------------------------------------------------------ pass 2 *)
 
 Lemma cicn_el : forall vars units n attrs kids,
-  val_cicn vars units (Elem MATHML_NS n attrs kids) =
+  val_cicn_gen cf vars units (Elem MATHML_NS n attrs kids) =
   (if (n =? "cn")%string then val_cn_units units attrs
-   else if (n =? "ci")%string then val_ci_name vars kids else [])
-  ++ flat_map (val_cicn vars units) kids.
+   else if (n =? "ci")%string then val_ci_name_gen cf vars kids else [])
+  ++ flat_map (val_cicn_gen cf vars units) kids.
 Proof.
-  intros. cbn [val_cicn is_mathml_el]. rewrite String.eqb_refl. reflexivity.
+  intros. cbn [val_cicn_gen is_mathml_el]. rewrite String.eqb_refl. reflexivity.
 Qed.
 
-Lemma cicn_ops : forall op, In op (ops1 ++ ops2 ++ ops3 ++ constants) -> val_cicn std_vars std_units (m_leaf op) = [].
+Lemma cicn_ops : forall op, In op (ops1 ++ ops2 ++ ops3 ++ constants) -> val_cicn_gen cf std_vars std_units (m_leaf op) = [].
 Proof. intros op H. in_cases H; reflexivity. Qed.
 
-Lemma cicn_ci : forall v, In v std_vars -> val_cicn std_vars std_units (m_ci v) = [].
-Proof. intros v H. in_cases H; reflexivity. Qed.
+Lemma cicn_ci : forall v, In v std_vars -> val_cicn_gen cf std_vars std_units (m_ci v) = [].
+Proof. intros v H. destruct cf; in_cases H; reflexivity. Qed.
 
-Lemma wf_cicn : forall a, WFExpr a -> val_cicn std_vars std_units a = [].
+Lemma wf_cicn : forall a, WFExpr a -> val_cicn_gen cf std_vars std_units a = [].
 Proof.
   induction 1; try (now apply cicn_ci);
     unfold m_cn, m_cn_e, m_apply, m_el in *;
     repeat (first [rewrite cicn_el | progress cbn [flat_map app String.eqb Ascii.eqb Bool.eqb]
-                  | match goal with H : val_cicn _ _ _ = [] |- _ => rewrite H end]);
+                  | match goal with H : val_cicn_gen _ _ _ _ = [] |- _ => rewrite H end]);
     try reflexivity.
   - apply cicn_ops. apply in_or_app. right. apply in_or_app. right. apply in_or_app. now right.
   - change (Elem MATHML_NS op [] []) with (m_leaf op). rewrite cicn_ops; [reflexivity|]. apply in_or_app. now left.
@@ -76,21 +80,23 @@ Lemma struct_sub : forall q fx mk kids i,
   (fix go (ks : list xml) (i : nat) {struct ks} : list rule :=
      match ks with
      | [] => []
-     | k :: r => if is_mathml k then val_struct_q q fx mk i k ++ go r (S i) else go r i
-     end) kids i = val_struct_kids_q q fx mk kids i.
+     | k :: r => if is_mathml k then val_struct_d df q fx mk i k ++ go r (S i) else go r i
+     end) kids i = val_struct_kids_d df q fx mk kids i.
 Proof.
   intros q fx mk kids. induction kids as [|k r IH]; intro i; [reflexivity|].
-  cbn [val_struct_kids_q]. destruct (is_mathml k); now rewrite IH.
+  cbn [val_struct_kids_d]. destruct (is_mathml k); now rewrite IH.
 Qed.
 
 Lemma struct_el : forall q fx pk idx n attrs kids,
-  val_struct_q q fx pk idx (Elem MATHML_NS n attrs kids) =
-  qwrap q n (val_node fx pk idx n attrs kids (val_struct_kids_q q fx (mkids kids) kids 0))
-            (val_struct_kids_q q fx (mkids kids) kids 0).
+  val_struct_d df q fx pk idx (Elem MATHML_NS n attrs kids) =
+  dwrap df pk n (qwrap q n (val_node fx pk idx n attrs kids (val_struct_kids_d df q fx (mkids kids) kids 0))
+                        (val_struct_kids_d df q fx (mkids kids) kids 0)).
 Proof.
-  intros. cbn [val_struct_q]. rewrite String.eqb_refl. cbn [negb]. now rewrite struct_sub.
+  intros. cbn [val_struct_d]. rewrite String.eqb_refl. cbn [negb]. now rewrite struct_sub.
 Qed.
 
+Lemma dwrap_nd : forall pk n r, (n =? "diff")%string = false -> dwrap df pk n r = r.
+Proof. intros pk n r H. unfold dwrap. rewrite H. now rewrite Bool.andb_false_r. Qed.
 Lemma qwrap_nq : forall q n r sub, is_qualifier n = false -> qwrap q n r sub = r.
 Proof. intros q n r sub H. unfold qwrap. rewrite H. now rewrite Bool.andb_false_r. Qed.
 Lemma qwrap_nil : forall q n sub, sub = [] -> qwrap q n [] sub = [].
@@ -105,16 +111,16 @@ Proof.
   destruct (strip m); [discriminate H|discriminate E].
 Qed.
 
-Lemma struct_leaf1 : forall q fx op a, In op ops1 -> val_struct_q q fx [m_leaf op; a] 0 (m_leaf op) = [].
-Proof. intros q fx op a H. destruct q, fx; in_cases H; reflexivity. Qed.
-Lemma struct_leaf2 : forall q fx op a b, In op ops2 -> val_struct_q q fx [m_leaf op; a; b] 0 (m_leaf op) = [].
-Proof. intros q fx op a b H. destruct q, fx; in_cases H; reflexivity. Qed.
-Lemma struct_leaf3 : forall q fx op a b c, In op ops3 -> val_struct_q q fx [m_leaf op; a; b; c] 0 (m_leaf op) = [].
-Proof. intros q fx op a b c H. destruct q, fx; in_cases H; reflexivity. Qed.
-Lemma struct_const : forall q fx c pk idx, In c constants -> val_struct_q q fx pk idx (m_leaf c) = [].
-Proof. intros q fx c pk idx H. destruct q; in_cases H; reflexivity. Qed.
-Lemma struct_ci : forall q fx v pk idx, In v std_vars -> val_struct_q q fx pk idx (m_ci v) = [].
-Proof. intros q fx v pk idx H. destruct q; in_cases H; reflexivity. Qed.
+Lemma struct_leaf1 : forall q fx op a, In op ops1 -> val_struct_d df q fx [m_leaf op; a] 0 (m_leaf op) = [].
+Proof. intros q fx op a H. destruct df, q, fx; in_cases H; reflexivity. Qed.
+Lemma struct_leaf2 : forall q fx op a b, In op ops2 -> val_struct_d df q fx [m_leaf op; a; b] 0 (m_leaf op) = [].
+Proof. intros q fx op a b H. destruct df, q, fx; in_cases H; reflexivity. Qed.
+Lemma struct_leaf3 : forall q fx op a b c, In op ops3 -> val_struct_d df q fx [m_leaf op; a; b; c] 0 (m_leaf op) = [].
+Proof. intros q fx op a b c H. destruct df, q, fx; in_cases H; reflexivity. Qed.
+Lemma struct_const : forall q fx c pk idx, In c constants -> val_struct_d df q fx pk idx (m_leaf c) = [].
+Proof. intros q fx c pk idx H. destruct df, q; in_cases H; reflexivity. Qed.
+Lemma struct_ci : forall q fx v pk idx, In v std_vars -> val_struct_d df q fx pk idx (m_ci v) = [].
+Proof. intros q fx v pk idx H. destruct df, q; in_cases H; reflexivity. Qed.
 
 Ltac mathml_facts :=
   repeat match goal with
@@ -152,8 +158,9 @@ Ltac struct_step :=
   repeat (first [ rewrite struct_el
                 | rewrite String.eqb_refl
                 | match goal with H : is_mathml ?a = true |- context [is_mathml ?a] => rewrite H end
-                | match goal with H : forall pk idx, val_struct_q _ _ pk idx ?a = [] |- context [val_struct_q _ _ _ _ ?a] => rewrite H end
-                | progress cbn [val_struct_kids_q mkids filter app is_mathml m_leaf m_el length]
+                | match goal with H : forall pk idx, val_struct_d _ _ _ pk idx ?a = [] |- context [val_struct_d _ _ _ _ _ ?a] => rewrite H end
+                | progress cbn [val_struct_kids_d mkids filter app is_mathml m_leaf m_el length]
+                | rewrite dwrap_nd by reflexivity
                 | rewrite qwrap_nq by reflexivity
                 | rewrite qwrap_nil by reflexivity
                 | rewrite node_apply by solve_len
@@ -163,14 +170,14 @@ Ltac struct_step :=
                 | rewrite node_degree by solve_len
                 | rewrite node_logbase by solve_len ]).
 
-Lemma wf_struct : forall q fx a, WFExpr a -> forall pk idx, val_struct_q q fx pk idx a = [].
+Lemma wf_struct : forall q fx a, WFExpr a -> forall pk idx, val_struct_d df q fx pk idx a = [].
 Proof.
   intros q fx. induction 1; intros pk idx; mathml_facts.
   - now apply struct_ci.
-  - unfold m_cn. rewrite struct_el, qwrap_nq by reflexivity. unfold val_node. cbn [vclass_of in_list existsb String.eqb Ascii.eqb Bool.eqb orb].
+  - unfold m_cn. rewrite struct_el, dwrap_nd, qwrap_nq by reflexivity. unfold val_node. cbn [vclass_of in_list existsb String.eqb Ascii.eqb Bool.eqb orb].
     unfold val_cn_struct, non_comment_kids. rewrite visible_single. cbn. unfold node_is_basic_real, stripped. cbn [xml_to_string].
     now rewrite H.
-  - unfold m_cn_e. rewrite struct_el, qwrap_nq by reflexivity. unfold val_node. cbn [vclass_of in_list existsb String.eqb Ascii.eqb Bool.eqb orb].
+  - unfold m_cn_e. rewrite struct_el, dwrap_nd, qwrap_nq by reflexivity. unfold val_node. cbn [vclass_of in_list existsb String.eqb Ascii.eqb Bool.eqb orb].
     unfold val_cn_struct, non_comment_kids, visible. cbn [first_child]. rewrite (basic_real_not_blank m H).
     cbn. unfold node_is_basic_real, stripped. cbn [xml_to_string]. rewrite H. cbn.
     now rewrite H0.
@@ -181,8 +188,8 @@ Proof.
     change (Elem MATHML_NS op [] []) with (m_leaf op). rewrite struct_leaf2 by assumption. reflexivity.
   - unfold m_apply. unfold m_el at 1. struct_step.
     change (Elem MATHML_NS op [] []) with (m_leaf op). rewrite struct_leaf3 by assumption. reflexivity.
-  - unfold m_apply. unfold m_el. struct_step. destruct q, fx; reflexivity.
-  - unfold m_apply. unfold m_el. struct_step. destruct q, fx; reflexivity.
+  - unfold m_apply. unfold m_el. struct_step. destruct df, q, fx; reflexivity.
+  - unfold m_apply. unfold m_el. struct_step. destruct df, q, fx; reflexivity.
   - unfold m_el. struct_step. reflexivity.
   - unfold m_el. struct_step. reflexivity.
   - unfold m_el. struct_step. reflexivity.
@@ -191,9 +198,9 @@ Qed.
 (* ------------------------------------------------------------------------------------------------ the analyser on the grammar *)
 
 Lemma ana_node_unfold : forall vars parent gp n attrs kids into,
-  ana_node vars parent gp (Elem MATHML_NS n attrs kids) into =
-  ana_body vars gp n kids
-    (konts (fun k slot => ana_node vars (Elem MATHML_NS n attrs kids) (is_mathml_el "math" parent) k slot) kids)
+  ana_node F vars parent gp (Elem MATHML_NS n attrs kids) into =
+  ana_body F vars gp n kids
+    (konts (fun k slot => ana_node F vars (Elem MATHML_NS n attrs kids) (is_mathml_el "math" parent) k slot) kids)
     (get into).
 Proof.
   intros. cbn [ana_node]. rewrite String.eqb_refl. cbn [negb]. f_equal.
@@ -206,10 +213,10 @@ Definition all_ops : list string := ops1 ++ ops2 ++ ops3 ++ constants.
 
 (** the AST an operator / constant leaf turns a fresh slot into *)
 Definition leaf_ast (gp : bool) (op : string) : ast :=
-  match ana_body std_vars gp op [] [] ast_new with Ok r => r | Crash _ => ast_new end.
+  match ana_body F std_vars gp op [] [] ast_new with Ok r => r | Crash _ => ast_new end.
 
 Lemma ana_leaf : forall op, In op all_ops -> forall parent gp into, get into = ast_new ->
-  ana_node std_vars parent gp (m_leaf op) into = Ok (leaf_ast gp op).
+  ana_node F std_vars parent gp (m_leaf op) into = Ok (leaf_ast gp op).
 Proof.
   intros op H parent gp into Hi. unfold m_leaf, m_el. rewrite ana_node_unfold, Hi. cbn [konts].
   destruct gp; in_cases H; reflexivity.
@@ -244,15 +251,15 @@ Proof. intro x. cbn. now destruct (is_blank_text x). Qed.
 
 Ltac use_ih :=
   match goal with
-  | IH : forall parent gp into, get into = ast_new -> exists r, ana_node std_vars parent gp ?a into = Ok r /\ good r
-    |- context [ana_node std_vars ?p ?g ?a ?s] =>
+  | IH : forall parent gp into, get into = ast_new -> exists r, ana_node F std_vars parent gp ?a into = Ok r /\ good r
+    |- context [ana_node F std_vars ?p ?g ?a ?s] =>
       let r := fresh "r" in let E := fresh "E" in let G := fresh "G" in
       destruct (IH p g s eq_refl) as (r & E & G); rewrite E; clear E
   end.
 
 Ltac use_leaf :=
   match goal with
-  | |- context [ana_node std_vars ?p ?g (m_leaf ?op) ?s] =>
+  | |- context [ana_node F std_vars ?p ?g (m_leaf ?op) ?s] =>
       rewrite (ana_leaf op) by (first [assumption | unfold all_ops; auto using in_or_app | reflexivity])
   end.
 
@@ -269,7 +276,7 @@ Lemma in_all_log : In "log" all_ops. Proof. apply in_all1. unfold ops1. cbn. tau
 
 Ltac use_leaf2 :=
   match goal with
-  | |- context [ana_node std_vars ?p ?g (m_leaf ?op) ?s] =>
+  | |- context [ana_node F std_vars ?p ?g (m_leaf ?op) ?s] =>
       rewrite (ana_leaf op) by
         (first [ assumption | reflexivity | now apply in_all1 | now apply in_all2 | now apply in_all3 | now apply in_allc
                | apply in_all_root | apply in_all_log ])
@@ -284,7 +291,8 @@ Ltac open_node :=
                 | progress cbn [konts is_mathml m_leaf m_el get] ]);
   unfold ana_body;
   cbn [String.eqb Ascii.eqb Bool.eqb];
-  cbn [ana_child nth_error bind length Nat.leb Nat.eqb Nat.sub apply_chain piecewise_chain populate ast_left ast_right ast_new].
+  cbn [ana_child nth_error bind length Nat.leb Nat.eqb Nat.sub apply_chain piecewise_chain populate ast_left ast_right ast_new negb];
+  rewrite ?Bool.andb_false_r; cbn beta iota.
 
 Ltac fold_leaf :=
   repeat match goal with |- context [Elem MATHML_NS ?op [] []] => progress change (Elem MATHML_NS op [] []) with (m_leaf op) end.
@@ -304,10 +312,13 @@ Ltac finish_good :=
   | cbn [ast_ty]; try assumption; try discriminate ].
 
 Lemma wf_ana : forall a, WFExpr a -> forall parent gp into, get into = ast_new ->
-  exists r, ana_node std_vars parent gp a into = Ok r /\ good r.
+  exists r, ana_node F std_vars parent gp a into = Ok r /\ good r.
 Proof.
   induction 1; intros parent gp into Hi; mathml_facts.
-  - unfold m_ci, m_el. rewrite ana_node_unfold, Hi. in_cases H; (eexists; split; [reflexivity|split; [reflexivity|discriminate]]).
+  - unfold m_ci, m_el. rewrite ana_node_unfold, Hi. cbn [konts is_mathml]. unfold ana_body.
+    cbn [String.eqb Ascii.eqb Bool.eqb]. rewrite visible_single, first_child_single. cbn [first_non_comment is_comment cur].
+    assert (E : (if af_ci_comment F then Some (Text v) else Some (Text v)) = Some (Text v)) by (now destruct (af_ci_comment F)).
+    rewrite E. in_cases H; (eexists; split; [reflexivity|split; [reflexivity|discriminate]]).
   - unfold m_cn. rewrite ana_node_unfold, Hi. cbn [konts is_mathml]. unfold ana_body.
     cbn [String.eqb Ascii.eqb Bool.eqb length Nat.eqb]. rewrite first_child_single. cbn [cur].
     eexists; split; [reflexivity|split; [reflexivity|discriminate]].
@@ -352,11 +363,11 @@ Qed.
 
 (** what the three validator passes need to know of a sub-tree *)
 Definition vfacts (x : xml) : Prop :=
-  is_mathml x = true /\ val_supported x = [] /\ val_cicn std_vars std_units x = []
-  /\ forall q fx pk idx, val_struct_q q fx pk idx x = [].
+  is_mathml x = true /\ val_supported x = [] /\ val_cicn_gen cf std_vars std_units x = []
+  /\ forall q fx pk idx, val_struct_d df q fx pk idx x = [].
 (** what the analyser needs to know of one side of an equation *)
 Definition afacts (x : xml) : Prop :=
-  forall parent gp, exists r, ana_node std_vars parent gp x None = Ok r /\ printable true r = true /\ side_ok (Some r) = true.
+  forall parent gp, exists r, ana_node F std_vars parent gp x None = Ok r /\ printable true r = true /\ side_ok (Some r) = true.
 
 Lemma wf_vfacts : forall a, WFExpr a -> vfacts a.
 Proof. intros a H. repeat split; [now apply wf_mathml|now apply wf_supported|now apply wf_cicn|intros; now apply wf_struct]. Qed.
@@ -373,12 +384,12 @@ Qed.
 Definition ode_lhs (x t : string) : xml := m_apply "diff" [m_el "bvar" [m_ci t]; m_ci x].
 
 Lemma ode_vfacts : forall x t, In x std_vars -> In t std_vars -> vfacts (ode_lhs x t).
-Proof. intros x t Hx Ht. in_cases Hx; in_cases Ht; repeat split; intros [] [] pk idx; reflexivity. Qed.
+Proof. intros x t Hx Ht. unfold vfacts. destruct cf, df; in_cases Hx; in_cases Ht; repeat split; try (intros [] [] pk idx); reflexivity. Qed.
 
 Lemma ode_afacts : forall x t, In x std_vars -> In t std_vars -> afacts (ode_lhs x t).
 Proof.
-  intros x t Hx Ht parent gp.
-  in_cases Hx; in_cases Ht; (eexists; split; [reflexivity|split; reflexivity]).
+  intros x t Hx Ht parent gp. unfold afacts. destruct F as [c1 ag gf].
+  destruct c1, ag; in_cases Hx; in_cases Ht; (eexists; split; [reflexivity|split; reflexivity]).
 Qed.
 
 Lemma eqn_vfacts : forall lhs rhs, vfacts lhs -> vfacts rhs -> vfacts (m_eqn lhs rhs).
@@ -388,32 +399,34 @@ Proof.
   - unfold m_el. rewrite sup_el. cbn [flat_map app]. now rewrite Sl, Sr.
   - unfold m_el. rewrite cicn_el. cbn [flat_map app String.eqb Ascii.eqb Bool.eqb]. now rewrite Cl, Cr.
   - intros q fx pk idx. unfold m_el at 1.
-    assert (Tl' : forall pk idx, val_struct_q q fx pk idx lhs = []) by (intros; apply Tl).
-    assert (Tr' : forall pk idx, val_struct_q q fx pk idx rhs = []) by (intros; apply Tr).
+    assert (Tl' : forall pk idx, val_struct_d df q fx pk idx lhs = []) by (intros; apply Tl).
+    assert (Tr' : forall pk idx, val_struct_d df q fx pk idx rhs = []) by (intros; apply Tr).
     struct_step.
     change (Elem MATHML_NS "eq" [] []) with (m_leaf "eq"). rewrite struct_leaf2 by (unfold ops2; cbn; tauto). reflexivity.
 Qed.
 
 Lemma eqn_ana : forall root lhs rhs,
   is_mathml_el "math" root = true -> is_mathml lhs = true -> is_mathml rhs = true -> afacts lhs -> afacts rhs ->
-  exists a, ana_equation std_vars root (m_eqn lhs rhs) = Ok a.
+  exists a, ana_equation F std_vars root (m_eqn lhs rhs) = Ok a.
 Proof.
   intros root lhs rhs Hroot Ml Mr Al Ar. unfold ana_equation, m_eqn, m_apply. unfold m_el at 1.
   rewrite ana_node_unfold.
   repeat (first [ rewrite String.eqb_refl | rewrite Ml | rewrite Mr | rewrite Hroot
                 | progress cbn [konts is_mathml m_leaf m_el get] ]).
   unfold ana_body. cbn [String.eqb Ascii.eqb Bool.eqb].
-  cbn [ana_child nth_error bind length Nat.leb Nat.eqb Nat.sub apply_chain].
+  cbn [ana_child nth_error bind length Nat.leb Nat.eqb Nat.sub apply_chain negb]. rewrite ?Bool.andb_false_r. cbn beta iota.
   fold_leaf. rewrite (ana_leaf "eq") by (first [reflexivity | apply in_all2; unfold ops2; cbn; tauto]).
   change (leaf_ast true "eq") with ast_new. cbn [bind ast_left ast_new].
   destruct (Al (Elem MATHML_NS "apply" [] [m_leaf "eq"; lhs; rhs]) true) as (rl & El & Pl & Sl). rewrite El.
   destruct (Ar (Elem MATHML_NS "apply" [] [m_leaf "eq"; lhs; rhs]) true) as (rr & Er & Pr & Sr). rewrite Er.
-  unfold ast_new. cbn [bind set_left set_right ast_ty printable gclass_of negb ast_left ast_right]. rewrite Pl, Pr. cbn [andb negb].
+  unfold ast_new, printable_gen.
+  cbn [bind set_left set_right ast_ty printable gclass_of negb ast_left ast_right]. rewrite Pl, Pr. cbn [andb].
+  rewrite Bool.orb_true_r. cbn [negb].
   rewrite Sl, Sr. cbn [andb]. eexists. reflexivity.
 Qed.
 
 Lemma wfeqn_facts : forall e, WFEqn e ->
-  vfacts e /\ forall root, is_mathml_el "math" root = true -> exists a, ana_equation std_vars root e = Ok a.
+  vfacts e /\ forall root, is_mathml_el "math" root = true -> exists a, ana_equation F std_vars root e = Ok a.
 Proof.
   destruct 1 as [lhs rhs Hl Hr | x t rhs Hx Ht Hr].
   - split; [apply eqn_vfacts; now apply wf_vfacts|].
@@ -442,18 +455,18 @@ Proof.
   induction 1 as [|e r He _ IH]; [reflexivity|]. cbn [flat_map].
   destruct (wfeqn_facts e He) as ((_ & S & _) & _). now rewrite S, IH.
 Qed.
-Lemma all_cicn : forall eqs, Forall WFEqn eqs -> flat_map (val_cicn std_vars std_units) eqs = [].
+Lemma all_cicn : forall eqs, Forall WFEqn eqs -> flat_map (val_cicn_gen cf std_vars std_units) eqs = [].
 Proof.
   induction 1 as [|e r He _ IH]; [reflexivity|]. cbn [flat_map].
   destruct (wfeqn_facts e He) as ((_ & _ & C & _) & _). now rewrite C, IH.
 Qed.
-Lemma all_struct : forall q fx eqs, Forall WFEqn eqs -> forall mk i, val_struct_kids_q q fx mk eqs i = [].
+Lemma all_struct : forall q fx eqs, Forall WFEqn eqs -> forall mk i, val_struct_kids_d df q fx mk eqs i = [].
 Proof.
-  intros q fx. induction 1 as [|e r He _ IH]; intros mk i; [reflexivity|]. cbn [val_struct_kids_q].
+  intros q fx. induction 1 as [|e r He _ IH]; intros mk i; [reflexivity|]. cbn [val_struct_kids_d].
   destruct (wfeqn_facts e He) as ((M & _ & _ & T) & _). now rewrite M, T, IH.
 Qed.
 Lemma all_ana : forall eqs, Forall WFEqn eqs -> forall root, is_mathml_el "math" root = true ->
-  exists l, ana_math_kids std_vars root eqs = Ok l.
+  exists l, ana_math_kids F std_vars root eqs = Ok l.
 Proof.
   induction 1 as [|e r He _ IH]; intros root Hroot; [now exists []|].
   destruct (wfeqn_facts e He) as ((M & _) & A). destruct (A root Hroot) as (a & Ea). destruct (IH root Hroot) as (l & El).
@@ -461,22 +474,34 @@ Proof.
 Qed.
 
 (** The contract on the generators' grammar: the validator raises nothing and the analyser reads the document. *)
-Theorem val_implies_ana_partial_gen : forall q fx x, WellFormedMath x ->
-  val_math_env_gen2 q fx std_vars std_units x = [] /\ ana x <> None.
+Theorem val_implies_ana_partial_sec : forall q fx x, WellFormedMath x ->
+  val_math_env_gen3 cf df q fx std_vars std_units x = [] /\ ana_gen F x <> None.
 Proof.
   intros q fx x (eqs & -> & Hall). split.
-  - unfold val_math_env_gen2. change (is_mathml_el "math" (m_math eqs)) with true. unfold m_math, m_el.
+  - unfold val_math_env_gen3. change (is_mathml_el "math" (m_math eqs)) with true. unfold m_math, m_el.
     cbn [negb kids_of].
     change ((fix go (ks : list xml) : list rule := match ks with [] => [] | k :: r => val_supported k ++ go r end) eqs)
       with (flat_map val_supported eqs).
     rewrite (all_supported eqs Hall), cicn_el, (all_cicn eqs Hall), (all_struct q fx eqs Hall). reflexivity.
-  - unfold ana, ana_node_opt, ana_math_env. unfold m_math, m_el. cbn [kids_of].
+  - unfold ana_gen, ana_math_gen, ana_math_env_gen. unfold m_math, m_el. cbn [kids_of].
     rewrite (visible_mathml eqs (all_mathml eqs Hall)).
     destruct (all_ana eqs Hall (Elem MATHML_NS "math" [] eqs) eq_refl) as (l & El). rewrite El. discriminate.
 Qed.
 
+End Flags.
+
+(** for every value of the six repair switches *)
+Theorem val_implies_ana_partial_gen : forall cf df q fx F x, WellFormedMath x ->
+  val_math_env_gen3 cf df q fx std_vars std_units x = [] /\ ana_gen F x <> None.
+Proof. intros. now apply val_implies_ana_partial_sec. Qed.
+
+(** for the code as it is in /repo *)
 Theorem val_implies_ana_partial : forall x, WellFormedMath x -> val_math x = [] /\ ana x <> None.
-Proof. intros x H. apply (val_implies_ana_partial_gen qualifier_fix_committed arity_fix_committed x H). Qed.
+Proof.
+  intros x H.
+  exact (val_implies_ana_partial_gen ci_comment_fix_committed diff_ci_fix_committed qualifier_fix_committed
+                                     arity_fix_committed afix_committed x H).
+Qed.
 
 (** non-vacuity: a document of the grammar that uses most constructors *)
 Example wf_example :
